@@ -25,7 +25,9 @@ fn check_break_assignment(context: &CheckerContext) -> GenericResult<()> {
         let matched_break_count = tour.stops.iter().try_fold(0, |acc, stop| {
             stop.activities()
                 .windows(stop.activities().len().min(2))
-                .flat_map(|leg| as_leg_info_with_break(context, tour, stop, leg))
+                .enumerate()
+                // NOTE a break is seen as `to` of its own leg; `from` is considered only for the very first activity
+                .flat_map(|(leg_idx, leg)| as_leg_info_with_break(context, tour, stop, leg, leg_idx == 0))
                 .try_fold::<_, _, GenericResult<_>>(
                     acc,
                     |acc, (from_loc, (from, to), (break_activity, vehicle_break))| {
@@ -134,6 +136,7 @@ fn as_leg_info_with_break<'a>(
     tour: &Tour,
     stop: &'a Stop,
     leg: &'a [Activity],
+    is_first_leg: bool,
 ) -> Option<LegBreakInfo<'a>> {
     let leg = match leg {
         [from, to] => Some((Some(from), to)),
@@ -143,7 +146,7 @@ fn as_leg_info_with_break<'a>(
 
     if let Some((from, to)) = leg {
         if let Some((break_activity, vehicle_break)) = once(to)
-            .chain(from.iter().cloned())
+            .chain(from.iter().cloned().filter(|_| is_first_leg))
             .flat_map(|activity| context.get_activity_type(tour, stop, activity).map(|at| (activity, at)))
             .filter_map(|(activity, activity_type)| match activity_type {
                 ActivityType::Break(vehicle_break) => Some((activity, vehicle_break)),
